@@ -45,7 +45,7 @@ def anchors():
     ]
 
 
-FORMS = ["diffusion", "aniso-diffusion", "nonsym-diffusion", "advection", "vector-advection", "mass-scalar", "mass-vector", "elasticity", "source-scalar", "source-vector"]
+FORMS = ["coupled-mass", "diffusion", "aniso-diffusion", "nonsym-diffusion", "advection", "vector-advection", "mass-scalar", "mass-vector", "elasticity", "source-scalar", "source-vector"]
 
 
 def cases(tier: str, seed: int) -> list[dict]:
@@ -60,7 +60,7 @@ def cases(tier: str, seed: int) -> list[dict]:
             forms = FORMS if not (heavy and tier == "quick") else ["diffusion", "mass-scalar", "source-scalar", "aniso-diffusion", "nonsym-diffusion", "advection"]
             for form in forms:
                 dim = 1 if et.startswith("SEG") else (2 if et in gm.ET_2D else 3)
-                if dim == 1 and form in ("mass-vector", "elasticity", "source-vector", "aniso-diffusion", "nonsym-diffusion", "vector-advection"):
+                if dim == 1 and form in ("mass-vector", "elasticity", "source-vector", "aniso-diffusion", "nonsym-diffusion", "vector-advection", "coupled-mass"):
                     continue
                 out.append({"sc": "form", "form": form, "et": et, "mt": ["mass", "rigi"][(k + r) % 2], "coef": ["const", "Ne", "NePg", "coords"][(k + r) % 4]})
                 k += 1
@@ -202,6 +202,19 @@ def run_form(case, ctx, rng):
             ref = np.einsum("eac,ij->eaicj", scal, np.eye(dof_n)).reshape(g.Ne, g.nPe * dof_n, g.nPe * dof_n)
             spellings = {"k*grad(u).ddot(grad(v))": lambda u, v: coef_in_form(u) * u.grad.ddot(v.grad),
                          "grad(v).ddot(k*grad(u))": lambda u, v: v.grad.ddot(coef_in_form(u) * u.grad)}
+        elif form == "coupled-mass":
+            # (W u) . v with a constant non-symmetric W (gyroscopic / Coriolis coupling): K[(a,i),(c,j)] = W_ij int N_a N_c
+            dof_n = dim
+            Npg = np.asarray(g.Get_N_pg(mt))[:, 0, :]
+            wJ = np.asarray(g.Get_weightedJacobian_e_pg(mt))
+            cw = np.asarray(FeArray.broadcast(c_op, g.Ne, wJ.shape[1])) * wJ if not np.isscalar(c_op) else c_op * wJ
+            W = rng.normal(size=(dim, dim))
+            W = W - W.T + 0.3 * rng.normal(size=(dim, dim))          # mostly skew, never symmetric
+            scal = np.einsum("ep,pa,pc->eac", cw, Npg, Npg)
+            ref = np.einsum("eac,ij->eaicj", scal, W).reshape(g.Ne, g.nPe * dim, g.nPe * dim)
+            spellings = {"k*(W@u).dot(v)": lambda u, v: coef_in_form(u) * (W @ u).dot(v),
+                         "k*v.dot(W@u)": lambda u, v: coef_in_form(u) * v.dot(W @ u),
+                         "k*(u@W.T).dot(v)": lambda u, v: coef_in_form(u) * (u @ W.T).dot(v)}
         elif form == "mass-scalar":
             ref = Operators.Bilinear.UV(g, c_op, 1, mt)
             spellings = {"c*u.dot(v)": lambda u, v: coef_in_form(u) * u.dot(v), "c*u*v": lambda u, v: coef_in_form(u) * u * v,
@@ -286,6 +299,30 @@ def run_form(case, ctx, rng):
             gotA = Aasm.toarray() if ok_shape else np.zeros((Ndof, Ndof))
         ctx.require("assemble-shape", ok_shape, skey + "/assemble/shape", shape=list(Aasm.shape))
         ctx.check("assemble-vs-scatter", relerr(gotA, want, scale=np.abs(want).max()), 1e-12, skey + "/assemble", et=et)
+    if isinstance(c_form, tuple) and form in ("diffusion", "mass-scalar", "source-scalar", "mass-vector") and dim >= 2:
+        # the mesh is moved and the SAME Field integrates the same form again: a coefficient written with Get_coords() is a function
+        # of the positions the integration points have now
+        tvec = np.zeros(3)
+        tvec[:dim] = rng.uniform(1, 3, dim)
+        with ctx.monitored("no-exception", key + "/after-translate/raised"):
+            with quiet():
+                mesh.Translate(*tvec)
+                X2 = np.asarray(g.Get_GaussCoordinates_e_pg(mt))
+                c2 = 1.0 + X2 @ c_form[1]
+                if form == "diffusion":
+                    ref2 = Operators.Bilinear.GradUGradV(g, c2, mt)
+                elif form == "mass-scalar":
+                    ref2 = Operators.Bilinear.UV(g, c2, 1, mt)
+                elif form == "mass-vector":
+                    ref2 = Operators.Bilinear.UV(g, c2, dof_n, mt)
+                else:
+                    ref2 = Operators.Linear.V(g, c2, 1, mt)
+                ref2 = np.asarray(ref2)
+                name, fn = next(iter(spellings.items()))
+                got = np.asarray((LinearForm if linear else BiLinearForm)(fn).Integrate_e(field))
+        got = got.reshape(ref2.shape) if got.size == ref2.size else got
+        ctx.check("integrate-vs-operator", relerr(got, ref2, scale=np.abs(ref2).max()), TOL, f"{key}/{name}/integrate@after-translate", et=et, mt=mtname, shift=tvec)
+        ctx.event("form-reintegrated-after-mesh-motion")
     if form in ("elasticity", "vector-advection", "vector-diffusion") and dof_n == dim:
         # the gradient used while assembling (superposition of the basis gradients) and the gradient of an evaluated field agree
         U = rng.normal(size=mesh.Nn * dof_n)
